@@ -357,8 +357,8 @@ func compare(sc *Scenario, c *canvas.Canvas, prefix string) (ms []core.Mismatch)
 	}
 	// alignment. A shape element paints at most a fill and a stroke, and the canvas records them in one layer. Every shape element
 	// of the scenario (painted or not) is a group with its expected paints and the decided cells of its outline; every recorded layer
-	// is a group with its observed paints. Groups are paired order-preservingly with the highest score: 7 (0 for an element without paints), plus up to 16 for the
-	// agreement of the layer's outline with the element's outline cells (graded, see below), plus 3 for every paint kind
+	// is a group with its observed paints. Groups are paired order-preservingly with the highest score: 7 (0 for an element without paints), plus 24 for the same
+	// outline (up to 12 for a partial agreement of the layer's outline with the element's outline cells, see below), plus 3 for every paint kind
 	// present on both sides with equal colours. Paired groups are compared paint by paint; unpaired paints are missing / extra.
 	exp := sc.Events
 	type egroup struct {
@@ -432,8 +432,9 @@ func compare(sc *Scenario, c *canvas.Canvas, prefix string) (ms []core.Mismatch)
 			}
 			o := obs[og[b][0]]
 			if eg[a].geo != nil && (o.invOK || sc.Doc != nil) {
-				// graded agreement of the layer's outline with the element's outline cells: 16 * (share of the expected-in samples
-				// that lie inside the outline - share of the expected-out samples that do), 2 if nothing is decided in and nothing differs.
+				// agreement of the layer's outline with the element's outline cells: 24 if no decided sample differs, else 12 * (share of
+				// the expected-in samples inside the outline - share of the expected-out samples inside it); 2 if nothing is decided in and
+				// nothing differs.
 				// Documents: the outline is compared in the element's own user space (the recorded path before its matrix, shifted by
 				// the element's x,y / cx,cy when the library draws the shape at the origin), so the pairing does not depend on the
 				// viewport mapping or on the transforms. Round trip: in canvas space (the writer bakes the view into the coordinates).
@@ -453,12 +454,15 @@ func compare(sc *Scenario, c *canvas.Canvas, prefix string) (ms []core.Mismatch)
 						}
 						return 0
 					}
+					if bad == 0 {
+						return 24 // the same outline: outweighs everything else (7 + 2*3)
+					}
 					f := float64(nIn-inMiss) / float64(nIn)
 					if nOut > 0 {
 						f -= float64(outHit) / float64(nOut)
 					}
 					if f > 0 {
-						return int(16*f + 0.5)
+						return int(12*f + 0.5)
 					}
 					return 0
 				}
@@ -506,7 +510,7 @@ func compare(sc *Scenario, c *canvas.Canvas, prefix string) (ms []core.Mismatch)
 							}
 						}
 						if all && cnt >= 2 {
-							bestG = max(bestG, 16)
+							bestG = max(bestG, 24)
 						}
 					}
 					v += bestG
